@@ -858,6 +858,35 @@ func runCase(t *rapid.T) {
 		w.relation(pick(t, "relation", relations))
 	}
 
+	// a charset the server does not support (unknown, or registered with IANA but not implemented): the search is
+	// refused with a tagged NO (RFC 3501 6.4.4: [BADCHARSET]) or BAD, and the session goes on
+	if chance(t, "refused-charset", 1, 2) {
+		cs := flipCase(t, "charset", pick(t, "unsupported", []string{"UTF-7", "UTF-32", "ISO-2022-KR", "ISO-2022-CN", "ISO-10646-UCS-2", "BOCU-1", "SCSU", "CESU-8",
+			"EBCDIC-US", "UNICODE-1-1-UTF-7", "x-verif-nope", "utf8mb4"}))
+		keys := bi.drawKeys(0)
+		parts, shown := encode(t, chance(t, "uid", 1, 2), cs, keys)
+		r := w.s.DoParts(parts...)
+
+		if r.Err != nil {
+			w.fail("%s: connection failed: %v", shown, r.Err)
+		}
+
+		if r.Status != "NO" && r.Status != "BAD" {
+			w.fail("%s: answered %s although the charset is not supported", shown, r.Status)
+		}
+
+		for _, un := range r.Untagged {
+			if un.Keyword() == "SEARCH" {
+				w.fail("%s: a SEARCH response was sent for a refused search: %s", shown, un.Raw)
+			}
+		}
+
+		// (that the session is still usable is shown by the probe that follows; a NOOP here would flush the pending
+		// EXPUNGEs of the stale views)
+
+		ev.Case(true, ev.Hash(w.mhash, shown), "charset:unsupported", "refused:"+strings.ToLower(r.Status))
+	}
+
 	// the view must not have moved while it was searched
 	if after := w.probe(false); !sameView(w.v, after) {
 		inconclusive(t, b, "the view changed during the search phase:\nbefore:\n%s\nafter:\n%s", describeView(w.v), describeView(after))
